@@ -515,6 +515,10 @@ def run_analysis(impl: Impl, rng, surface: str) -> tuple[str | None, str]:
             top, low = max(es), min(es)
             # a zoom on the low-energy region: the top of the window lies below some transition states
             get_connectivity_graph(k, low + rng.choice([0.3, 0.6, 1.05]) * (top - low + 1.0), low - 0.5, rng.choice([1, 3, 7]))
+        # the caller goes on using ITS coordinates object (whose box need not contain every stored minimum: a region of
+        # interest, a shrunk box): bringing it back into its box is the caller's business, never the store's
+        if getattr(coords, "position", None) is not None and np.size(coords.position) == coords.ndim:
+            coords.move_to_bounds()
     except TypeError as e:
         return f"analysis {name} raised TypeError: {e}", name
     except Exception as e:
